@@ -396,3 +396,7 @@ impl OrderBook {
 pub fn order_book_from_json(path: String) -> PyResult<OrderBook> {
     Ok(OrderBook(BaseOrderBook::load_json(path.as_str())?))
 }
+
+#[cfg(any(kani, verif_replay))]
+#[path = "/verif/harness/py_order_book_proofs.rs"]
+pub(crate) mod verif_proofs;
